@@ -757,6 +757,7 @@ def _cmp(node, tr, fail):
 
 
 THR = Fraction(1e-9)
+LAMMPS_NAMES = ['lx', 'ly', 'lz', 'xy', 'xz', 'yz', 'xlo', 'xhi', 'ylo', 'yhi', 'zlo', 'zhi']
 
 
 # ----------------------------------------------------------------------------------------
@@ -875,6 +876,8 @@ def apply_spec(box, spec):
     import atomman as am
     np = _np()
     k, kw, via = spec['kind'], dict(spec['kw']), spec.get('via', 'set')
+    if spec.get('types'):
+        kw = typed_kw(kw, spec['types'])
     if k == 'reset':
         if via == 'ctor':
             return am.Box()
@@ -894,7 +897,7 @@ def apply_spec(box, spec):
         return box
     if spec.get('container') == 'array':
         for key in ('vects', 'avect', 'bvect', 'cvect', 'origin'):
-            if key in kw:
+            if key in kw and not any(t == key or t.startswith(key + '.') for t in spec.get('types') or ()):
                 kw[key] = np.array(kw[key])
     if via == 'family':
         return getattr(am.Box, spec['family'])(*spec['fargs'])
@@ -917,6 +920,152 @@ def apply_spec(box, spec):
     return box
 
 
+# ----------------------------------------------------------------------------------------
+# numeric types of the arguments: the same VALUE handed over as python int / float, numpy integer / float32 / float64
+# scalar, 0-d array; vectors as lists of ints, of floats, mixed, tuples, integer / float32 / float64 arrays.
+# spec['types'] = {keyword (or 'vects.<row>'): type name}; spec['kw'] keeps the plain values (what the model is sent).
+# ----------------------------------------------------------------------------------------
+INT_SCALARS = ['int', 'np.int64', 'np.int32', 'arr0-int', 'np.int16']
+FLOAT_SCALARS = ['float', 'np.float64', 'np.float32', 'arr0-float', 'arr0-float32']
+INT_VECTORS = ['ints', 'int-array', 'int32-array', 'int-tuple']
+FLOAT_VECTORS = ['floats', 'float-array', 'float32-array', 'tuple', 'mixed']
+
+
+def _typed_scalar(x, t):
+    np = _np()
+    conv = {'float': float, 'int': lambda v: int(v), 'np.int64': lambda v: np.int64(int(v)), 'np.int32': lambda v: np.int32(int(v)),
+            'np.int16': lambda v: np.int16(int(v)), 'arr0-int': lambda v: np.array(int(v)), 'np.float64': np.float64,
+            'np.float32': np.float32, 'arr0-float': lambda v: np.array(float(v)),
+            'arr0-float32': lambda v: np.array(v, dtype=np.float32)}[t]
+    y = conv(x)
+    if float(y) != float(x):
+        raise ValueError(f'{x!r} is not representable as {t}')
+    return y
+
+
+def _typed_vector(v, t):
+    np = _np()
+    v = list(v)
+    if t == 'floats':
+        out = [float(x) for x in v]
+    elif t == 'tuple':
+        out = tuple(float(x) for x in v)
+    elif t == 'mixed':           # integer-valued entries as python ints, the others as floats, within one vector
+        out = [int(x) if float(x) == int(x) else float(x) for x in v]
+    elif t == 'ints':
+        out = [int(x) for x in v]
+    elif t == 'int-tuple':
+        out = tuple(int(x) for x in v)
+    elif t == 'int-array':
+        out = np.array([int(x) for x in v], dtype=np.int64)
+    elif t == 'int32-array':
+        out = np.array([int(x) for x in v], dtype=np.int32)
+    elif t == 'float-array':
+        out = np.array(v, dtype=np.float64)
+    elif t == 'float32-array':
+        out = np.array(v, dtype=np.float32)
+    else:
+        raise ValueError(t)
+    if [float(x) for x in out] != [float(x) for x in v]:
+        raise ValueError(f'{v!r} is not representable as {t}')
+    return out
+
+
+def typed_kw(kw, types):
+    """the keyword values of a spec converted to the numeric types asked for (values unchanged, checked)."""
+    out = dict(kw)
+    for key, t in types.items():
+        if key.startswith('vects.'):
+            if 'vects' in out:
+                rows = list(out['vects'])
+                rows[int(key[6:])] = _typed_vector(kw['vects'][int(key[6:])], t)
+                out['vects'] = rows
+        elif key in out:
+            out[key] = _typed_vector(kw[key], t) if isinstance(kw[key], (list, tuple)) else _typed_scalar(kw[key], t)
+    return out
+
+
+def _admissible(x, vector=False):
+    np = _np()
+    xs = list(x) if vector else [x]
+    integral = all(float(v) == int(v) and abs(v) < 2 ** 15 for v in xs)
+    f32 = all(float(np.float32(v)) == float(v) for v in xs)
+    if vector:
+        return (INT_VECTORS if integral else []) + [t for t in FLOAT_VECTORS if f32 or t != 'float32-array']
+    return (INT_SCALARS if integral else []) + [t for t in FLOAT_SCALARS if f32 or 'float32' not in t]
+
+
+SCALAR_KEYS = ('lx', 'ly', 'lz', 'xy', 'xz', 'yz', 'xlo', 'xhi', 'ylo', 'yhi', 'zlo', 'zhi', 'a', 'b', 'c', 'alpha', 'beta', 'gamma')
+
+
+def assign_types(rng, spec, cls=None, vcls=None, only=None):
+    """give every argument of the definition a numeric type admissible for its value.  cls / vcls: one scalar / vector type
+    used wherever it is admissible (e.g. all lengths numpy int32 next to python-float tilts), for the keywords in `only`
+    (default: all); every other argument gets a random admissible type (cls None) or plain python floats (cls given)."""
+    kw = spec['kw']
+    types = {}
+
+    def pick(key, adm, want, plain):
+        if want is not None and (only is None or key in only):
+            return want if want in adm else plain
+        if want is None and cls is None and vcls is None:
+            return rng.choice(adm)
+        return plain
+
+    for key, v in kw.items():
+        if key == 'vects':
+            for i, row in enumerate(v):
+                types[f'vects.{i}'] = pick(f'vects.{i}', _admissible(row, vector=True), vcls, 'floats')
+        elif isinstance(v, (list, tuple)):
+            types[key] = pick(key, _admissible(v, vector=True), vcls, 'floats')
+        elif key in SCALAR_KEYS:
+            adm = _admissible(v)
+            if spec['kind'] == 'abc':
+                # numpy computes with float32 scalars in float32 (cosines, products, roots of set_abc): single-precision
+                # arguments ask for a single-precision cell, which is not the rounding bound this check is about
+                adm = [t for t in adm if 'float32' not in t]
+            types[key] = pick(key, adm, cls, 'float')
+    spec['types'] = types
+    spec.pop('container', None)
+    return spec
+
+
+def integerise(rng, spec, p=0.65):
+    """make the length-like values of a grid definition integer-valued (each with probability p) and keep at least one
+    non-integer tilt / angle / component next to them: the combination in which an integer-typed argument must not
+    decide the type of the whole cell."""
+    kind, kw = spec['kind'], spec['kw']
+    if kind in ('lengths', 'abc'):
+        for k in (('lx', 'ly', 'lz') if kind == 'lengths' else ('a', 'b', 'c')):
+            if rng.random() < p:
+                kw[k] = float(max(1, round(kw[k])))
+    elif kind == 'hilos':
+        for lo, hi in (('xlo', 'xhi'), ('ylo', 'yhi'), ('zlo', 'zhi')):
+            if rng.random() < p:
+                L = float(max(1, round(kw[hi] - kw[lo])))
+                kw[lo] = float(round(kw[lo]))
+                kw[hi] = kw[lo] + L
+    if kind in ('lengths', 'hilos'):
+        if all(float(kw.get(t, 0.0)) == int(kw.get(t, 0.0)) for t in ('xy', 'xz', 'yz')):
+            kw[rng.choice(['xy', 'xz', 'yz'])] = rng.choice([-1, 1]) * rng.choice([1, 3, 5, 7, 9, 11, 13]) / 8
+    elif kind in ('vects', 'vectors'):
+        V = [list(r) for r in (kw['vects'] if kind == 'vects' else [kw['avect'], kw['bvect'], kw['cvect']])]
+        d0 = _det3([[Fraction(x) for x in r] for r in V])
+        for i in rng.sample(range(3), rng.choice([1, 2, 2, 3])):
+            W = [list(r) for r in V]
+            W[i] = [float(round(x)) for x in W[i]]
+            d = _det3([[Fraction(x) for x in r] for r in W])
+            if d != 0 and (d > 0) == (d0 > 0):
+                V = W
+        if kind == 'vects':
+            kw['vects'] = V
+        else:
+            kw['avect'], kw['bvect'], kw['cvect'] = V
+    if 'origin' in kw and rng.random() < 0.5 and all(round(x) != 0 for x in kw['origin']):
+        kw['origin'] = [float(round(x)) for x in kw['origin']]
+    return spec
+
+
 # parameter order of the set_* methods as documented (docstrings of Box.set_vectors / set_lengths / set_hi_los / set_abc)
 POSITIONAL = {'vectors': ['avect', 'bvect', 'cvect', 'origin'],
               'lengths': ['lx', 'ly', 'lz', 'xy', 'xz', 'yz', 'origin'],
@@ -937,7 +1086,10 @@ def _pos_dy(rng, hi=8.0, bits=3):
     return rng.randint(1, int(hi * q)) / q
 
 
-def gen_spec(rng, regime, allow_left=False, kinds=None, origin=None, ints=None, nonzero_origin=False, tiny=False):
+SIGN_PATTERNS = [(1, 1, 1), (1, -1, -1), (-1, 1, -1), (-1, -1, 1), (-1, 1, 1), (1, -1, 1), (1, 1, -1), (-1, -1, -1)]
+
+
+def gen_spec(rng, regime, allow_left=False, kinds=None, origin=None, ints=None, nonzero_origin=False, tiny=False, typed=None):
     """random cell definition. regime: 'grid' | 'float'.  origin: True / False = with / without the optional origin
     (None: random); ints: integer-valued definition given as python ints (integer arrays with container 'array')."""
     kind = rng.choice(kinds or ['vects', 'vectors', 'lengths', 'hilos', 'abc', 'lengths', 'hilos'])
@@ -969,9 +1121,16 @@ def gen_spec(rng, regime, allow_left=False, kinds=None, origin=None, ints=None, 
                 V = [[num(-4, 4) for _ in range(3)] for _ in range(3)]
             else:                         # lower-triangular with a row permutation / sign pattern
                 V = [[pos(), zero, zero], [num(-4, 4), pos(), zero], [num(-4, 4), num(-4, 4), pos()]]
-                if rng.random() < 0.5:
+                r2 = rng.random()
+                if r2 < 0.4:
                     cols = rng.choice([[0, 1, 2], [1, 2, 0], [2, 0, 1]])
                     V = [[r[c] for c in cols] for r in V]
+                elif r2 < 0.65:
+                    # still lower-triangular, but the cell turned by 180 degrees about x, y or z (two Cartesian axes reversed:
+                    # right-handed, not LAMMPS-oriented although the upper triangle is zero); any sign pattern if left-handed
+                    # cells are wanted
+                    sg = rng.choice(SIGN_PATTERNS if allow_left else [p for p in SIGN_PATTERNS[1:] if p[0] * p[1] * p[2] > 0])
+                    V = [[x * sg[j] if x != 0 else x for j, x in enumerate(r)] for r in V]
             d = _det3([[Fraction(x) for x in r] for r in V])
             if d == 0:
                 continue
@@ -1021,6 +1180,16 @@ def gen_spec(rng, regime, allow_left=False, kinds=None, origin=None, ints=None, 
         if origin is not None:
             kw['origin'] = origin
     spec['kw'] = kw
+    if typed is None:
+        typed = g and not ints and rng.random() < 0.25
+    if typed and g and not ints and spec.get('via') != 'family':
+        # the same values as python ints / floats, numpy integer / float32 / float64 scalars, 0-d arrays, int / float lists ...
+        integerise(rng, spec)
+        r = rng.random()
+        if r < 0.4:           # one integer (or float32) class for all length-like arguments, python floats for the rest
+            assign_types(rng, spec, cls=rng.choice(INT_SCALARS + ['np.float32', 'arr0-float32']), vcls=rng.choice(INT_VECTORS + ['float32-array']))
+        else:                 # every argument its own type
+            assign_types(rng, spec)
     return spec
 
 
@@ -1059,7 +1228,7 @@ def resolve_perturb(box, req):
     form, eps, up, target = q['form'], q['eps'], q['up'], q['target']
     V = np.array(box.vects, dtype=float)
     o = [float(x) for x in box.origin]
-    normal = bool(box.is_lammps_norm())
+    normal = bool(V[0, 1] == 0 and V[0, 2] == 0 and V[1, 2] == 0 and V[0, 0] > 0 and V[1, 1] > 0 and V[2, 2] > 0)
     if target in ('lengths', 'hilos', 'abc') and not normal:
         target = 'vects'
     spec = {'via': q['via'], 'regime': 'float', 'container': q['container'], 'perturbed': dict(q)}
@@ -1134,6 +1303,24 @@ def resolve_perturb(box, req):
     return spec
 
 
+# how far the unit of length can go (powers of two; entries of the cells are below 2^4 in the unit):
+SCALE_FOURTH = 235      # fourth powers of a length are doubles (plane normals, hence inside / outside)
+SCALE_VOLUME = 330      # third powers are (volume)
+SCALE_SQUARE = 500      # squares are (lengths, angles, set_abc, both conversions, reciprocal vectors)
+
+
+def gen_scale_exp(rng, kmax):
+    """exponent of a power-of-two unit: everyday (2^-30..2^30), or towards the ends of the double range."""
+    r = rng.random()
+    if r < 0.3:
+        k = rng.choice([-30, -24, -10, 10, 20, 30])
+    elif r < 0.5:
+        k = rng.choice([-1, 1]) * rng.randint(40, min(kmax, SCALE_FOURTH))
+    else:
+        k = rng.choice([-1, 1]) * rng.randint(min(kmax, SCALE_FOURTH), kmax)
+    return k
+
+
 def scale_spec(spec, f):
     """the same cell definition in other units: every length (not the angles) times f (a power of two)."""
     kw = {}
@@ -1145,6 +1332,7 @@ def scale_spec(spec, f):
         else:
             kw[k] = v * f
     out = dict(spec, kw=kw)
+    out.pop('types', None)        # an int16 / float32 argument need not survive the change of units
     if out.get('via') == 'family':
         out['fargs'] = [x * f if i < {'cubic': 1, 'hexagonal': 2, 'tetragonal': 2, 'trigonal': 1, 'orthorhombic': 3,
                                       'monoclinic': 3, 'triclinic': 3}[out['family']] else x
@@ -1314,6 +1502,7 @@ class _Scenario:
         self.items = []          # (line, kind, impl, info)
         self.history = []        # specs applied so far (for replay)
         self.exact = regime == 'grid'
+        self.no_inside = False
 
     def add(self, line, kind, impl, **info):
         info['history'] = list(self.history)
@@ -1384,11 +1573,12 @@ class _Scenario:
 
     def read_lammps(self):
         b = self.box
-        try:
-            impl = [b.lx, b.ly, b.lz, b.xy, b.xz, b.yz, b.xlo, b.xhi, b.ylo, b.yhi, b.zlo, b.zhi]
-            impl = [float(x) for x in impl]
-        except Exception as e:  # noqa
-            impl = _cls(e)
+        impl = []           # each getter on its own: which of them refuse, and which hand out a number
+        for nm in LAMMPS_NAMES:
+            try:
+                impl.append(float(getattr(b, nm)))
+            except Exception as e:  # noqa
+                impl.append(_cls(e))
         self.add('lammps', 'lammps', impl)
 
     def read_recip(self):
@@ -1445,6 +1635,8 @@ class _Scenario:
 
     def read_inside(self, op='inside', pts=None, variant=None):
         np = _np()
+        if self.no_inside:
+            return
         if pts is None:
             pts = self._points(self.rng.randint(1, 6))
             if self.regime == 'grid' and self.rng.random() < 0.12:      # python ints / integer arrays
@@ -1479,6 +1671,8 @@ class _Scenario:
         self.read_recip()
         self.read_conv('r2c')
         self.read_conv('c2r')
+        if self.no_inside:       # unit so large / small that a plane normal (fourth power under the root) is no double
+            return
         self.read_inside('inside')
         if not light or self.rng.random() < 0.5:
             self.read_inside('outside')
@@ -1487,7 +1681,7 @@ class _Scenario:
 
 def _short(spec):
     return {k: v for k, v in spec.items() if k in ('kind', 'via', 'kw', 'family', 'fargs', 'container', 'regime', '_ok',
-                                                   'perturbed', 'alias', 'invalid', 'ints')}
+                                                   'perturbed', 'alias', 'invalid', 'ints', 'types', 'scale2')}
 
 
 def _cond(model_vects, model_recip):
@@ -1546,8 +1740,10 @@ def _perturb_scenarios(ctx, rng, n):
     for sid in range(n):
         sc = _Scenario(ctx, rng, 'float', 30_000 + sid)
         spec = gen_spec(rng, 'float')
-        if rng.random() < 0.5:
-            spec = scale_spec(spec, 2.0 ** rng.choice([-30, -24, -10, 10, 20, 30]))
+        if rng.random() < 0.6:
+            k = gen_scale_exp(rng, SCALE_VOLUME)
+            spec = scale_spec(spec, 2.0 ** k)
+            sc.no_inside = abs(k) > SCALE_FOURTH
         sc.setter(spec)
         sc.all_reads()
         eps0 = 10 ** rng.uniform(-15, -4)
@@ -1868,11 +2064,18 @@ def _compare(ctx, sc, line, kind, impl, info, out, state):
             bad(f'baddim:{line.split()[0]}', f'{line.split()[0]} with trailing dimension != 3 ({info["variant"]}): '
                 f'implementation {impl}, model {out}')
         return
+    if kind == 'lammps' and (out.startswith('err:') or any(isinstance(x, str) for x in impl)):
+        for nm, x in zip(LAMMPS_NAMES, impl):
+            if (x if isinstance(x, str) else 'ok') != (out if out.startswith('err:') else 'ok'):
+                bad(f'lammps:{nm}:' + ('not-refused' if out.startswith('err:') else 'refused'),
+                    f'{nm}: implementation {x!r}, model {out[:60]} (all twelve: {impl}) after {_hist(info)}')
+                return
+        return
     if isinstance(impl, str) or out.startswith('err:'):
         if impl != out:
             bad(f'{kind}:error', f'{line[:80]} [{info.get("variant", "")}]: implementation {impl!r}, model {out}')
         return
-    if not _all_finite({k: v for k, v in impl.items() if k != 'angles'} if isinstance(impl, dict) else impl):
+    if not _all_finite({k: v for k, v in impl.items() if k not in ('angles', 'volume')} if isinstance(impl, dict) else impl):
         bad(f'{kind}:non-finite', f'{line[:80]} [{info.get("variant", "")}]: implementation reports {impl!r}, model {out[:120]} after {_hist(info)}')
         return
     if kind == 'get':
@@ -1898,26 +2101,29 @@ def _compare(ctx, sc, line, kind, impl, info, out, state):
                     return
         if impl['norm'] != norm:
             bad('get:is_lammps_norm', f'is_lammps_norm {impl["norm"]}, model {norm} after {_hist(info)}')
+        e = math.frexp(vmax)[1]             # the unit of the cell: squares are compared in units of 4^e (never out of range)
+        q2 = Fraction(4) ** e
         for nm, x, y2 in zip('abc', impl['abc'], (a2, b2, c2)):
-            y = math.sqrt(float(y2))
-            if abs(x - y) > 8 * U * y + tol:
-                bad(f'get:{nm}', f'{nm} = {x!r}, model sqrt({float(y2)!r}) = {y!r} after {_hist(info)}')
+            y = math.ldexp(math.sqrt(float(y2 / q2)), e)
+            if not abs(x - y) <= 8 * U * y + tol:
+                bad(f'get:{nm}', f'{nm} = {x!r}, model {y!r} after {_hist(info)}')
         for nm, ang, d, p, q in (('alpha', impl['angles'][0], dbc, b2, c2), ('beta', impl['angles'][1], dac, a2, c2),
                                  ('gamma', impl['angles'][2], dab, a2, b2)):
             if p == 0 or q == 0:
                 continue
-            cosm = float(d) / math.sqrt(float(p) * float(q))
+            cosm = float(d / q2) / math.sqrt(float(p / q2) * float(q / q2))
             if not (abs(math.cos(math.radians(ang)) - cosm) <= 1e-12 + 4 * tol / vmax and 0.0 <= ang <= 180.0):
                 bad(f'get:{nm}', f'{nm} = {ang!r} deg (cos {math.cos(math.radians(ang))!r}), model cosine {cosm!r} after {_hist(info)}')
         grid = info['exact'] and all(_dyadic(x, 3, 64) for x in mv)
         state['grid'] = grid and all(_dyadic(x, 3, 64) for x in mo)
-        vtol = 0.0 if grid else SAFETY * U * 6 * vmax ** 3 + 3 * tol * vmax ** 2
-        if abs(Fraction(impl['volume']) - vol) > vtol:
-            bad('get:volume', f'volume = {impl["volume"]!r}, model |det| = {float(vol)!r} after {_hist(info)}')
+        if 3 * abs(e) + 12 < 1000:          # the volume is a double
+            vtol = 0.0 if grid else SAFETY * U * 6 * vmax ** 3 + 3 * tol * vmax ** 2
+            if not math.isfinite(impl['volume']) or abs(Fraction(impl['volume']) - vol) > vtol:
+                bad('get:volume', f'volume = {impl["volume"]!r}, model |det| = {float(vol)!r} after {_hist(info)}')
         return
     if kind == 'lammps':
         m = cm.unfrs(out)
-        names = ['lx', 'ly', 'lz', 'xy', 'xz', 'yz', 'xlo', 'xhi', 'ylo', 'yhi', 'zlo', 'zhi']
+        names = LAMMPS_NAMES
         vmax = max(abs(float(x)) for x in m) or 1.0
         last = next((h for h in reversed(info['history']) if h['kind'] != 'attr_origin' and h.get('_ok')), None)
         tol = 0.0 if (info['exact'] and state.get('grid')) else SAFETY * U * _set_scale(last, vmax)
@@ -2179,7 +2385,7 @@ def apply_spec_alias(box, spec):
     arrays; they must come back unmodified, and are then overwritten (the Box must have copied the values, as
     `self.__vects[:] = value` does)."""
     np = _np()
-    if not spec.get('alias'):
+    if not spec.get('alias') or spec.get('types'):      # typed arguments are built inside apply_spec (nothing to hold on to)
         return apply_spec(box, spec), []
     sp = dict(spec, kw=dict(spec['kw']))
     sp.pop('container', None)
@@ -2228,6 +2434,11 @@ def _oracle_box(ctx, box, spec, pts, rels, viol, after_mutation=False, light=Fal
     #                 about "the vectors" and is evaluated as well
     cond = _impl_cond(box)
     vmax = max(abs(float(x)) for r in V for x in r)
+    # the unit the cell is written in: every clause below is evaluated on the exactly rescaled cell Vn = V / 2^e (entries of
+    # order one) — lengths scale with the unit, angles and relative coordinates do not depend on it (scale_* theorems of
+    # Proofs/C01_Scale.lean) — so the oracle itself never leaves the double range however large or small the cell is
+    e = math.frexp(vmax)[1]
+    Vn = [[x / Fraction(2) ** e for x in r] for r in V]
     ctx.stats.case('oracle:cell' + (':left-handed' if left else ''), (repr(_short(spec)), after_mutation), sample={'spec': _short(spec)})
 
     # -- the defining values come back (construction clause) ------------------------------------------
@@ -2281,28 +2492,29 @@ def _oracle_box(ctx, box, spec, pts, rels, viol, after_mutation=False, light=Fal
                     return
     if spec['kind'] == 'abc':
         al, be, ga = kw.get('alpha', 90.0), kw.get('beta', 90.0), kw.get('gamma', 90.0)
-        G = [[_dot(V[i], V[j]) for j in range(3)] for i in range(3)]
-        a, b, c = kw['a'], kw['b'], kw['c']
+        G = [[_dot(Vn[i], Vn[j]) for j in range(3)] for i in range(3)]
+        a, b, c = (math.ldexp(float(kw[k]), -e) for k in 'abc')          # in the unit 2^e
         wantG = [[a * a, a * b * math.cos(math.radians(ga)), a * c * math.cos(math.radians(be))],
                  [None, b * b, b * c * math.cos(math.radians(al))], [None, None, c * c]]
         tolG = 1e-9 * cond * max(a, b, c) ** 2
         for i in range(3):
             for j in range(i, 3):
                 if abs(float(G[i][j]) - wantG[i][j]) > tolG:
-                    viol('construct:abc', f'set_abc(a={a}, b={b}, c={c}, alpha={al}, beta={be}, gamma={ga}): Gram matrix entry '
-                         f'({i},{j}) of the resulting vectors is {float(G[i][j])!r}, lengths/angles ask for {wantG[i][j]!r}; '
-                         f'vects = {box.vects.tolist()}{tag}')
+                    viol('construct:abc', f'set_abc(a={kw["a"]}, b={kw["b"]}, c={kw["c"]}, alpha={al}, beta={be}, gamma={ga}): Gram matrix entry '
+                         f'({i},{j}) of the resulting vectors is {float(G[i][j])!r}' + (f' * 2^{2 * e}' if abs(e) > 60 else '')
+                         + f', lengths/angles ask for {wantG[i][j]!r}; vects = {box.vects.tolist()}{tag}')
                     return
         if not box.is_lammps_norm():
             viol('construct:abc:norm', f'set_abc result is not LAMMPS-normal: {box.vects.tolist()}')
 
     # -- reported lengths, angles, volume are those of the vectors --------------------------------------
-    L = [math.sqrt(float(_dot(V[i], V[i]))) for i in range(3)]
+    L = [math.sqrt(float(_dot(Vn[i], Vn[i]))) for i in range(3)]      # lengths of the rescaled cell
     for nm, got, want in zip('abc', (box.a, box.b, box.c), L):
-        if abs(got - want) > 1e-12 * want:
-            viol(f'getter:{nm}', f'{nm} = {got!r} but |vects[{"abc".index(nm)}]| = {want!r} for vects {box.vects.tolist()}{tag}')
+        if not abs(math.ldexp(float(got), -e) - want) <= 1e-12 * want:
+            viol(f'getter:{nm}', f'{nm} = {got!r} but |vects[{"abc".index(nm)}]| = {math.ldexp(want, e)!r} for vects {box.vects.tolist()}{tag}')
+    V_, V = V, Vn             # angles do not depend on the unit: evaluated on the rescaled cell
     for nm, (i, j) in (('alpha', (1, 2)), ('beta', (0, 2)), ('gamma', (0, 1))):
-        got = getattr(box, nm)
+        got = float(getattr(box, nm))
         want = float(_dot(V[i], V[j])) / (L[i] * L[j])
         if not abs(math.cos(math.radians(got)) - want) <= 1e-12 or not (0 <= got <= 180):
             viol(f'getter:{nm}', f'{nm} = {got!r} deg, but the cosine between vects[{i}] and vects[{j}] is {want!r} '
@@ -2317,11 +2529,29 @@ def _oracle_box(ctx, box, spec, pts, rels, viol, after_mutation=False, light=Fal
         if not abs(got - ang) <= tol:
             viol(f'getter:{nm}:angle', f'{nm} = {got!r} deg, but the angle between vects[{i}] and vects[{j}] is {ang!r} deg '
                  f'(difference {got - ang:.3g}, rounding bound {tol:.3g}) for vects {box.vects.tolist()}{tag}')
-    if abs(Fraction(float(box.volume)) - abs(det)) > Fraction(1e-12) * abs(det) + Fraction(U * 64 * vmax ** 3):
-        viol('getter:volume', f'volume = {float(box.volume)!r} but |det vects| = {float(abs(det))!r} for vects {box.vects.tolist()}{tag}')
+    V = V_
+    if 3 * abs(e) + 12 < 1000:       # the volume itself is a double (third power of the unit)
+        vol = float(box.volume)
+        if not math.isfinite(vol) or abs(Fraction(vol) - abs(det)) > Fraction(1e-12) * abs(det) + Fraction(U * 64) * Fraction(vmax) ** 3:
+            viol('getter:volume', f'volume = {vol!r} but |det vects| = {float(abs(det))!r} for vects {box.vects.tolist()}{tag}')
+    else:
+        ctx.stats.case('oracle:volume-not-a-double', (e, repr(_short(spec))))
     normal = V[0][1] == 0 and V[0][2] == 0 and V[1][2] == 0 and V[0][0] > 0 and V[1][1] > 0 and V[2][2] > 0
     if bool(box.is_lammps_norm()) != normal:
         viol('getter:is_lammps_norm', f'is_lammps_norm() = {box.is_lammps_norm()} for vects {box.vects.tolist()}')
+    if not normal:
+        # not in LAMMPS-compatible orientation: the cell is "the same up to a rigid rotation" only, and the LAMMPS
+        # lengths / tilts / bounds must be refused, each one of them, rather than handed out for a cell they do not describe
+        for nm in LAMMPS_NAMES:
+            try:
+                got = getattr(box, nm)
+            except Exception:  # noqa
+                ctx.stats.case('oracle:lammps-refused', (nm, repr(box.vects.tolist())))
+                continue
+            viol(f'getter:{nm}:not-refused', f'{nm} = {float(got)!r} is handed out for a cell that is not in LAMMPS-compatible orientation '
+                 f'(needs vects[0][1] = vects[0][2] = vects[1][2] = 0 and vects[0][0], vects[1][1], vects[2][2] > 0): vects '
+                 f'{box.vects.tolist()}, is_lammps_norm() = {bool(box.is_lammps_norm())}{tag}')
+            break
     if normal:
         want = {'lx': V[0][0], 'ly': V[1][1], 'lz': V[2][2], 'xy': V[1][0], 'xz': V[2][0], 'yz': V[2][1],
                 'xlo': o[0], 'ylo': o[1], 'zlo': o[2], 'xhi': o[0] + V[0][0], 'yhi': o[1] + V[1][1], 'zhi': o[2] + V[2][2]}
@@ -2361,14 +2591,20 @@ def _oracle_box(ctx, box, spec, pts, rels, viol, after_mutation=False, light=Fal
 
     # -- conversions: mutual inverses, exact value, container independence ------------------------------
     Vinv = _inv3(V)
+    # Plane.normal = n / sqrt(n.n) with n a cross product of two cell vectors: fourth power of the unit under the root
+    no_inside = 4 * abs(e) + 24 > 1000
+    if no_inside:
+        ctx.stats.case('oracle:inside-not-representable', (e, repr(_short(spec))))
     for name in (VARIANTS_ALL if not light else ['array2', VARIANTS[len(pts) % len(VARIANTS)]]):
-        _oracle_points(ctx, box, V, o, Vinv, cond, vmax, rmax, pts, rels, name, viol, tag, spec, left)
+        _oracle_points(ctx, box, V, o, Vinv, cond, vmax, rmax, pts, rels, name, viol, tag, spec, left or no_inside)
     # integer-valued points handed over as python ints / integer arrays (no float dtype anywhere in the argument)
     ipts = [[float(round(x)) for x in p] for p in pts]
     irels = [[float(round(x)) for x in p] for p in rels]
-    pick = int(abs(pts[0][0]) * 8 + abs(pts[0][1]) * 64) if pts else 0       # a function of the input only (replayable)
+    pick = int(math.fmod(abs(pts[0][0]) * 8 + abs(pts[0][1]) * 64, 1000.0)) if pts else 0       # a function of the input only (replayable)
+    if any(abs(x) >= 2.0 ** 52 for p in ipts + irels for x in p):
+        return          # no integer type holds such coordinates
     for name in ([INT_VARIANTS[pick % 5], INT_VARIANTS[(pick // 5 % 4 + 1 + pick) % 5]] if not light else [INT_VARIANTS[pick % 5]]):
-        _oracle_points(ctx, box, V, o, Vinv, cond, vmax, rmax, ipts, irels, name, viol, tag, spec, left)
+        _oracle_points(ctx, box, V, o, Vinv, cond, vmax, rmax, ipts, irels, name, viol, tag, spec, left or no_inside)
 
 
 def _snapshot(box, P, S):
@@ -2861,6 +3097,123 @@ def _search_redefinitions(ctx, rng, nbase):
         _run_cell(ctx, base, pts, rels, bad, light=True, check_base=False)
 
 
+def _tri_cell(rng, regime):
+    """a lower-triangular cell with positive diagonal (LAMMPS orientation), all three tilts non-zero."""
+    if regime == 'grid':
+        d = [_pos_dy(rng, 8.0) for _ in range(3)]
+        t = [rng.choice([-1, 1]) * _pos_dy(rng, 4.0) for _ in range(3)]
+    else:
+        d = [rng.uniform(0.5, 8) for _ in range(3)]
+        t = [rng.choice([-1, 1]) * rng.uniform(0.1, 4) for _ in range(3)]
+    return [[d[0], 0.0, 0.0], [t[0], d[1], 0.0], [t[1], t[2], d[2]]]
+
+
+def _search_sign_patterns(ctx, rng, n):
+    """lower-triangular cells with EVERY sign pattern of the diagonal (the cell of a LAMMPS-oriented box with one, two
+    or three Cartesian axes reversed): upper triangle zero throughout, right-handed for an even number of reversed axes
+    (a 180 degree turn about x, y or z) — LAMMPS-compatible only for (+,+,+): is_lammps_norm, refusal of every LAMMPS
+    getter, rebuild through lengths and angles (same cell up to a rotation), as first definition and as re-definition."""
+    for it in range(n):
+        regime = 'grid' if it % 2 == 0 else 'float'
+        T = _tri_cell(rng, regime)
+        o = [(_dy(rng, -8, 8) if regime == 'grid' else rng.uniform(-8, 8)) for _ in range(3)]
+        for sg in SIGN_PATTERNS:
+            V = [[x * sg[j] if x != 0 else 0.0 for j, x in enumerate(r)] for r in T]
+            kind = rng.choice(['vects', 'vectors'])
+            kw = {'vects': V} if kind == 'vects' else {'avect': V[0], 'bvect': V[1], 'cvect': V[2]}
+            if rng.random() < 0.7:
+                kw['origin'] = o
+            spec = {'kind': kind, 'via': rng.choice(['ctor', 'set', 'method', 'positional']), 'regime': regime, 'kw': kw}
+            ctx.stats.case('oracle:sign-pattern', (sg, it))
+            try:
+                pts, rels = _place(rng, spec, regime, 3)
+            except Exception as e:  # noqa
+                ctx.violate(f"construct:{kind}", f'valid cell definition {_short(spec)} raised {type(e).__name__}: {e}',
+                            {'op': 'cell', 'spec': _short(spec), 'points': [], 'rels': [], 'mutations': []})
+                continue
+            if rng.random() < 0.5:
+                _run_cell(ctx, spec, pts, rels, [], light=(it % 3 != 0))
+            else:           # on an object that was a LAMMPS-oriented cell before
+                base = {'kind': 'vects', 'via': 'set', 'regime': regime, 'kw': {'vects': T, 'origin': o}}
+                _run_cell(ctx, base, pts, rels, [dict(spec, via='set' if spec['via'] == 'ctor' else spec['via'])],
+                          light=(it % 3 != 0), check_base=False)
+
+
+def _search_scales(ctx, rng, n):
+    """the same cell in other units of length, up to the ends of the double range: every definition (grid and generic, all
+    parameter sets, left-handed now and then) times 2^k, k swept over +-40 .. +-500 — lengths and their squares are doubles
+    throughout, third powers (volume) up to 2^+-330, fourth powers (plane normals) up to 2^+-235; a clause is evaluated
+    wherever its own quantities are doubles.  Multiplying by a power of two is exact, so a grid cell stays exact.  Lengths
+    scale with the unit; angles, relative coordinates, inside/outside and is_lammps_norm do not depend on it
+    (Proofs/C01_Scale.lean), which is how the oracle decides what they must be."""
+    sweep = [40, 100, 200, 235, 250, 256, 260, 270, 300, 330, 341, 342, 400, 450, 480, 495, 500]
+    for it in range(n):
+        regime = 'grid' if it % 2 == 0 else 'float'
+        unit = gen_spec(rng, regime, allow_left=(it % 7 == 3), typed=False, ints=False)
+        k = rng.choice([-1, 1]) * (sweep[(it // 2) % len(sweep)] if it % 3 else rng.randint(40, SCALE_SQUARE))
+        spec = scale_spec(unit, 2.0 ** k)
+        spec['scale2'] = k
+        muts = []
+        if rng.random() < 0.4:           # then the object is given another cell in quite another unit, or a slightly changed one
+            if rng.random() < 0.5:
+                m = scale_spec(gen_spec(rng, regime, typed=False, ints=False), 2.0 ** gen_scale_exp(rng, SCALE_SQUARE))
+                if m['via'] in ('ctor', 'family'):
+                    m['via'] = 'set'
+                muts.append(m)
+            else:
+                muts.append(gen_perturb(rng))
+        ctx.stats.case('oracle:scale', (k, it), sample={'spec': _short(spec)})
+        try:
+            pts, rels = _place(rng, spec, regime, 4)
+        except Exception as e:  # noqa
+            ctx.violate(f"construct:{spec['kind']}", f'valid cell definition {_short(spec)} raised {type(e).__name__}: {e}',
+                        {'op': 'cell', 'spec': _short(spec), 'points': [], 'rels': [], 'mutations': []})
+            continue
+        _run_cell(ctx, spec, pts, rels, muts, light=(it % 4 != 0))
+
+
+def _search_types(ctx, rng, n):
+    """one cell, the numeric TYPE of its arguments varied: for every integer / single-precision scalar class T and every
+    subset of the length-like arguments, those arguments are handed over as T (python int, numpy int64 / int32 / int16,
+    0-d integer array, numpy float32, 0-d float32 array) and the rest as python floats with NON-integer tilts / angles /
+    components; likewise the rows of vects / avect, bvect, cvect / origin as int lists, int arrays, float32 arrays, tuples,
+    mixed lists.  The cell is the one the values describe whatever their types (construction clause, exact)."""
+    for it in range(n):
+        for kind in ('lengths', 'hilos', 'abc', 'vectors', 'vects'):
+            base = None
+            for _ in range(50):
+                base = gen_spec(rng, 'grid', kinds=[kind], ints=False, typed=False)
+                if base.get('via') != 'family':
+                    break
+            base.pop('container', None)
+            integerise(rng, base, p=1.0)
+            if kind == 'abc':
+                kw = base['kw']
+                al, be, ga = kw.get('alpha', 90.0), kw.get('beta', 90.0), kw.get('gamma', 90.0)
+                if rng.random() < 0.5 and al == be == ga == 90.0:
+                    kw['gamma'] = 75.5
+            if kind in ('vects', 'vectors'):
+                groups = [[f'vects.{i}'] for i in range(3)] if kind == 'vects' else [['avect'], ['bvect'], ['cvect']]
+                classes = [(None, v) for v in INT_VECTORS + ['float32-array', 'mixed', 'tuple']]
+            else:
+                groups = {'lengths': [['lx'], ['ly'], ['lz']], 'hilos': [['xlo', 'xhi'], ['ylo', 'yhi'], ['zlo', 'zhi']],
+                          'abc': [['a'], ['b'], ['c']]}[kind]
+                classes = [(c, None) for c in INT_SCALARS + ['np.float32', 'arr0-float32']]
+            for (c, vc) in classes:
+                masks = list(range(1, 8)) if it == 0 else [7, rng.randint(1, 6)]
+                for mask in masks:
+                    only = [k for g, grp in enumerate(groups) if mask >> g & 1 for k in grp]
+                    if kind == 'hilos' and rng.random() < 0.3:      # one bound of an axis only
+                        only = [k for k in only if rng.random() < 0.6] or only
+                    spec = {k: (dict(v) if isinstance(v, dict) else v) for k, v in base.items()}
+                    spec['via'] = rng.choice(['ctor', 'set', 'method', 'positional'])
+                    if 'origin' in spec['kw'] and rng.random() < 0.5:
+                        only = only + ['origin']
+                    assign_types(rng, spec, cls=c, vcls=vc or rng.choice(INT_VECTORS + ['floats']), only=only)
+                    ctx.stats.case('oracle:types', (kind, c or vc, mask, it), sample={'spec': _short(spec)})
+                    _run_cell(ctx, spec, [[0.25, 0.5, 0.75]], [[0.25, 0.5, 0.75]], [], light=True)
+
+
 def search(ctx, broken):
     if ctx.disagreements:
         try:
@@ -2869,6 +3222,9 @@ def search(ctx, broken):
             ctx.notes.append(f'replaying the correspondence disagreements through the clause oracle failed: {type(e).__name__}: {e}')
     rng = random.Random(ctx.seed * 7919 + 17)
     _search_redefinitions(ctx, rng, ctx.n(8, 160) * (2 if broken else 1))
+    _search_types(ctx, random.Random(ctx.seed * 7919 + 18), ctx.n(1, 12))
+    _search_scales(ctx, random.Random(ctx.seed * 7919 + 20), ctx.n(70, 1500) * (2 if broken else 1))
+    _search_sign_patterns(ctx, random.Random(ctx.seed * 7919 + 19), ctx.n(4, 60) * (2 if broken else 1))
     N = ctx.n(60, 1200) * (3 if broken else 1)
     for it in range(N):
         regime = 'grid' if it % 2 == 0 else 'float'
@@ -2903,7 +3259,7 @@ def search(ctx, broken):
     # left-handed cells (negative determinant): a row negated or two rows exchanged; first definition and re-definition
     for it in range(ctx.n(12, 300) * (2 if broken else 1)):
         regime = 'grid' if it % 2 == 0 else 'float'
-        spec = gen_spec(rng, regime, kinds=[rng.choice(['vects', 'vectors'])], ints=False)
+        spec = gen_spec(rng, regime, kinds=[rng.choice(['vects', 'vectors'])], ints=False, typed=False)
         V = spec['kw']['vects'] if spec['kind'] == 'vects' else [spec['kw']['avect'], spec['kw']['bvect'], spec['kw']['cvect']]
         V = [list(r) for r in V]
         if rng.random() < 0.5:
@@ -2952,7 +3308,7 @@ def search(ctx, broken):
     for it in range(ctx.n(60, 1500) * (3 if broken else 1)):
         spec = gen_spec(rng, 'float')
         if rng.random() < 0.5:
-            spec = scale_spec(spec, 2.0 ** rng.choice([-30, -24, -10, 10, 20, 30]))
+            spec = scale_spec(spec, 2.0 ** gen_scale_exp(rng, SCALE_SQUARE))
         try:
             pts, rels = _place(rng, spec, 'float', 5)
         except Exception as e:  # noqa
